@@ -212,7 +212,7 @@ def model_family(name, per_obs=True, flags="exclusive"):
             ]
         draws = {"beta": lambda r: jnp.asarray([r.uniform(-2, 2), r.uniform(-2, 2)], jnp.float32)}
         return model, recipe, draws, {}
-    if name in ("linreg", "linreg_user_ll", "linreg_both_flags", "linreg_noflags"):
+    if name in ("linreg", "linreg_user_ll", "linreg_user_ll_pointwise", "linreg_both_flags", "linreg_noflags"):
         beta = lsl.param(jnp.array([0.2, 0.7], jnp.float32), lsl.Dist(tfd.Normal, loc=0.0, scale=5.0), name="beta")
         sigma = lsl.param(jnp.float32(0.9), lsl.Dist(tfd.InverseGamma, concentration=2.0, scale=1.5), name="sigma")
         mu = lsl.Var(lsl.Calc(lambda X, b: X @ b, lsl.obs(X, name="X"), beta), name="mu")     # weak intermediate var
@@ -229,6 +229,11 @@ def model_family(name, per_obs=True, flags="exclusive"):
             user = lsl.Calc(lambda yv: jnp.sum(yv) * 0.0 - 12.5, y, _name="my_ll")
             gb.add(user)
             gb.log_lik_node = user
+        if name == "linreg_user_ll_pointwise":
+            # a user-supplied total that is not a scalar (pointwise log-likelihood contributions)
+            user = lsl.Calc(lambda yv, m: -0.5 * (yv - m) ** 2, y, mu, _name="my_pointwise_ll")
+            gb.add(user)
+            gb.log_lik_node = user
         model = gb.build_model()
 
         def recipe(v):
@@ -243,7 +248,7 @@ def model_family(name, per_obs=True, flags="exclusive"):
             ]
         draws = {"beta": lambda r: jnp.asarray([r.uniform(-2, 2), r.uniform(-2, 2)], jnp.float32),
                  "sigma": lambda r: jnp.float32(r.uniform(0.3, 3.0))}
-        return model, recipe, draws, ({"ll": -12.5} if user is not None else {})
+        return model, recipe, draws, ({} if user is None else {"ll": "my_pointwise_ll"} if name.endswith("pointwise") else {"ll": -12.5})
     if name == "auto_transformed":
         mu = lsl.param(jnp.float32(0.3), lsl.Dist(tfd.Normal, loc=0.0, scale=2.0), name="mu")
         tau = lsl.param(jnp.float32(1.4), lsl.Dist(tfd.Gamma, concentration=3.0, rate=2.0), name="tau")
@@ -377,7 +382,7 @@ def model_family(name, per_obs=True, flags="exclusive"):
     raise KeyError(name)
 
 
-FAMILY = ["distreg", "auto_transformed", "linreg_flag", "linreg", "linreg_user_ll", "linreg_both_flags", "linreg_noflags", "transformed", "mvn_degen", "hier_vector"]
+FAMILY = ["distreg", "auto_transformed", "linreg_flag", "linreg", "linreg_user_ll", "linreg_user_ll_pointwise", "linreg_both_flags", "linreg_noflags", "transformed", "mvn_degen", "hier_vector"]
 
 
 def numeric_trace(rng, name, nassign=3):
@@ -391,12 +396,16 @@ def numeric_trace(rng, name, nassign=3):
                 model.vars[pname].value = val
                 alt.vars[pname].value = val
         vals = {p: model.vars[p].value for p in draws}
-        e = {"ev": "totals_num", "leaves": recipe(vals),
+        uval = {k: (model.nodes[v].value if isinstance(v, str) else v) for k, v in user.items()}
+        total = {"lp": model.log_prob, "ll": model.log_lik, "lpr": model.log_prior}
+        exact = all(np.shape(total[k]) == np.shape(uval[k]) and np.array_equal(np.asarray(total[k]), np.asarray(uval[k]))
+                    for k in user)
+        e = {"ev": "totals_num", "leaves": recipe(vals), "user_forward_exact": bool(exact),
              "log_prob": _f(model.log_prob), "log_lik": _f(model.log_lik), "log_prior": _f(model.log_prior),
              "alt_log_prob": _f(alt.log_prob), "alt_log_lik": _f(alt.log_lik), "alt_log_prior": _f(alt.log_prior),
              "user_lp": "lp" in user, "user_ll": "ll" in user, "user_lpr": "lpr" in user,
-             "user_lp_value": fstr(user.get("lp", 0.0)), "user_ll_value": fstr(user.get("ll", 0.0)),
-             "user_lpr_value": fstr(user.get("lpr", 0.0))}
+             "user_lp_value": _f(uval.get("lp", 0.0)), "user_ll_value": _f(uval.get("ll", 0.0)),
+             "user_lpr_value": _f(uval.get("lpr", 0.0))}
         ev.append(e)
     # graph header placeholders (the numeric events do not touch the graph state)
     hdr = {"n": 1, "kind": ["v"], "inp": [[]], "init": ["-"], "family": name, "dists": [], "has_var": [False],
